@@ -258,7 +258,7 @@ Local Arguments Qle_bool : simpl never.
 Local Arguments Qeq_bool : simpl never.
 Local Arguments substring : simpl never.
 Ltac split_matches :=
-  unfold Qlt_b;                       (* a < b is not (b <= a): one kind of comparison atom *)
+  unfold Qlt_b; rewrite ?Bool.negb_involutive;     (* a < b is not (b <= a): one kind of comparison atom *)
   repeat match goal with
          | |- context [negb ?y] => destruct y; cbn; try reflexivity
          | |- context [orb ?y _] => destruct y; cbn; try reflexivity
